@@ -129,6 +129,8 @@ def run_unit(args):
             o_rl *= 4
             o_to *= 4
         eng = core.Engine(**opts)
+        from . import procstate
+        eng.path_start_hooks.append(procstate.capture().restore)
         known = known_for(load_known(prop), hname, config)
         ctx = SymCtx(eng, {'harness': hname, 'config': config}, known, o_rl, o_to)
         ctx.cross_check = (tier == 'thorough')
@@ -173,6 +175,21 @@ def run_unit(args):
                 timed_out = str(e)      # keep what was found so far (candidates), report the unit as inconclusive
             else:
                 raise
+        except (KeyboardInterrupt, SystemExit):
+            raise
+        except BaseException as e:
+            # symbolic execution could not proceed on some path (typically an operation on a symbolic value that the proxies do
+            # not model, introduced by a change to the code).  The unit is a harness error whatever happens next; but before
+            # giving up, probe the unit natively: a natively failing check is a violation (confirmed by replay like any other).
+            out['error'] = ''.join(traceback.format_exception(type(e), e, e.__traceback__))[-4000:]
+            if not ctx.candidates:
+                try:
+                    hit = ctx.probe_any(seed=idx)
+                except Exception:
+                    hit = None
+                if hit is not None:
+                    ctx.candidates.append({'harness': hname, 'config': config, 'check': hit[1], 'inputs': hit[0], 'info': None,
+                                           'kinds': {}, 'source': 'native probe after symbolic execution stopped: ' + repr(e)[:200]})
         out['timeout'] = timed_out
         out.update({
             'paths': eng.stats.paths, 'cut': eng.stats.cut, 'cut_kinds': cut_kinds, 'path_ends': path_ends,
@@ -209,8 +226,10 @@ def replay_inprocess(hname: str, config: dict, inputs: dict, prop: str):
     """run the harness natively on one input assignment; returns (failures, passed, aborted)"""
     from .ctx import ConcreteCtx, inputs_from_json
     from .core import PathAbort
+    from . import procstate
     load_harnesses(prop)
     h = REGISTRY[hname]
+    procstate.capture().restore()
     c = ConcreteCtx(inputs_from_json(inputs))
     aborted = None
     try:
@@ -338,7 +357,7 @@ def run_property(prop: str, tier: str, seed: int, jobs: int = 0, only: Optional[
                            candidates=0, known_hits=0, by={}, checks={}, reached={}, wall_s=0.0,
                            feas_queries=0, oblig_queries=0, solver_s=0.0, bounds=h.bounds)
     for r in results:
-        if r.get('error'):
+        if r.get('error') and 'paths' not in r:
             continue
         a = agg[r['harness']]
         a['units'] += 1
